@@ -76,7 +76,7 @@ CLAIMED = {
          "the printer is my reading of ISO 32000-1 7.2-7.3; reals denote std's correctly-rounded f32 of their decimal text",
          "DESIGN.md §4 C03"),
  "C04": ("proptest-generated Primitive trees + exhaustive 1/2-byte strings and all Unicode scalars as names/keys; round-trip oracle serialize->parse in each placement the writer uses; thorough tier ends with a coverage-guided libFuzzer campaign (target parse_roundtrip: parse -> serialise -> parse)",
-         "Generated-input search over Primitive trees placed as indirect body (as save writes it), dictionary value, array element, SCN and BDC/DP operands; every 1- and 2-byte string and every Unicode scalar (as name and as key) exhaustively. Round-trip equality up to Integer/Real identification and no panic in serialize.",
+         "Generated-input search over Primitive trees placed as indirect body (as save frames it), as an object of a document built and reloaded through the library's own writer, dictionary value, array element, SCN and BDC/DP operands; every 1- and 2-byte string and every Unicode scalar (as name and as key) exhaustively. Round-trip equality up to Integer/Real identification and no panic in serialize.",
          "placement strings mirror Storage::save and serialize_ops; canonical comparison identifies Integer n with Real n.0",
          "DESIGN.md §4 C04"),
  "C15": ("model-driven generation with round-trip (write.read idempotence) and superset (catch-all) oracles over ~95 typed models: exhaustive single-entry edits plus proptest-generated multi-edit instances",
